@@ -10,6 +10,8 @@ from ..terms import Term, is_call_to, is_global, show, subterms
 from .common import const_of, fterms, has_subterm, short
 
 SELF = ("param", "self")
+RNG_DRAWS = {"choice", "integers", "random", "shuffle", "permutation", "permuted", "uniform", "normal", "standard_normal", "bytes", "spawn",
+             "randint", "randrange", "sample", "choices", "getrandbits", "exponential", "poisson", "beta", "binomial"}
 ENV_MUTATORS = {"reset", "reveal_value", "unreveal_value", "set_value", "set_values", "set_known_values", "unset_value",
                 "set_lower_bound", "set_upper_bound", "set_lower_bounds", "set_upper_bounds", "_init_values", "seed", "close"}
 
@@ -163,6 +165,16 @@ def rule_c13_pairing_readonly(prog: Program, col: Collector) -> None:
                     root = root[1]
                 if root == G:
                     bad.append((e, f"stores into {short(e.target, 50)}"))
+            # drawing from a random stream that belongs to the env advances env state; the per-episode hook after_reset is the one
+            # place where the protocol lets a solver consume from it (the action-returning call must leave the env as it found it)
+            if name != "after_reset":
+                for e in ft.calls():
+                    r = e.recv
+                    if r is None or e.name not in RNG_DRAWS:
+                        continue
+                    env_stream = any(x == ("attr", G, "np_random") or x == ("call", ("attr", G, "get_wrapper_attr"), (("const", "np_random"),), ()) for x in subterms(r))
+                    if env_stream:
+                        bad.append((e, f"draws from the environment's random stream ({short(r, 50)}.{e.name}())"))
             col.check(not bad, ref.where(bad[0][0].node if bad else None), ref.short,
                       f"{name} treats the env as read-only" + (f": {bad[0][1]}" if bad else ""), construct="env-mutation",
                       necessity="solvers must leave the environment exactly as they found it", rule="V2")
@@ -382,7 +394,7 @@ def rule_c13_choice(prog: Program, col: Collector) -> None:
         ift = fterms(prog, iw)
         st = [e for e in ift.of_kind("store") if e.attr == "worst"]
         col.check(bool(st) and st[-1].value == ("param", "worst"), iw.where(), iw.short, "self.worst stores the constructor argument", construct="greedy-worst-store",
-                  necessity="")
+                  necessity="the worst flag selects min instead of max: if it is not stored the worst-greedy solver is the greedy solver")
     # ---- largest
     lname = entries.get("largest", (None, None))[0]
     if lname is None:
@@ -480,9 +492,12 @@ def rule_c13_expected_greedy(prog: Program, col: Collector) -> None:
             if c[0] == "index" and is_call_to(c[1], "numpy.arange") and c[2][0] == "cmp" and c[2][1] in ("<", "<="):
                 l = c[2][2]
                 okr = l[0] == "bin" and l[1] == "-" and l[2] in means and is_call_to(l[3], "numpy.min", "min") and l[3][2] and l[3][2][0] in means
+            det += 1
             col.check(okr, ref.where(e.node), ref.short, "the randomised branch chooses among candidates within EPSILON of the MIN mean gap",
                       construct="greedy-random-min", necessity="the randomised variant must still minimise the mean gap")
-    col.check(det >= 1, ref.where(), ref.short, "a deterministic argmin branch exists", construct="greedy-det", necessity="")
+        else:
+            col.undecidable(ref.where(e.node), ref.short, f"selection of the next coalition of unrecognised form: {short(v, 80)}", rule="V5")
+    col.check(det >= 1, ref.where(), ref.short, "at least one selection site (argmin or randomised minimum) was recognised", construct="greedy-det", necessity="anchor: at least one selection site must be recognised, otherwise the choice rule was not examined")
     # append + remove before rebuilding the candidates
     app = [e for e in ft.calls("append") if e.recv is not None]
     rem = [e for e in ft.calls() if e.name in ("remove", "discard") and e.recv is not None]
